@@ -227,7 +227,7 @@ class Ctx:
             if rc != 0:
                 raise RuntimeError("translator build failed:\n" + out)
             rc, out = sh([os.path.join(BIN, "translator"), "-repo", REPO, "-out", os.path.join(COQ, "Gen"),
-                          "-json", os.path.join(BUILD, "gen")] + list(gens), cwd=REPO, env=GOENV, timeout=600)
+                          "-json", os.path.join(BUILD, "gen" + PTAG)] + list(gens), cwd=REPO, env=GOENV, timeout=600)
         if rc != 0:
             # the translator could not read the site it translates: the model is no longer
             # regenerated from the source -> the obligation over it is not discharged
@@ -239,7 +239,7 @@ class Ctx:
         return True
 
     def gen_json(self, name):
-        return json.load(open(os.path.join(BUILD, "gen", name + ".json")))
+        return json.load(open(os.path.join(BUILD, "gen" + PTAG, name + ".json")))
 
     # ---------------------------------------------------------------- A: proofs
     def ensure_coq_makefile(self):
